@@ -17,6 +17,7 @@ RULE = ('Properties: every scope kind x pattern kind x widths 1-3 in the non-act
         'topics of the property x payloads {0,1} x gaps {1,2} (L = 3 quick; L = 4 thorough, 5 for properties over '
         '<= 2 topics). evaluations = (property, trace, reading) triples; non-trivial = some width > 1 and the trace '
         'contains a split topic; distinct = (property shape, trace length, verdict). Exhaustive up to L.')
+RULE_ADDED = ' Since the seeding rounds: bounds 0 s and 1500 ms, properties derived with but() from a canonicalised one, binding-sensitive mode, alternatives sharing one alias.'
 ASSUMPTIONS = ['trace semantics of DESIGN.md 4.2 (my reading of docs/lang.md): windows exclusive at both ends, bound '
                'measured from the window start (absence/existence) or from the trigger/behaviour (binary patterns); '
                'both readings R1 (first activation only) and R2 (re-activation) are run']
